@@ -1,6 +1,7 @@
 from typing import Dict, List
 
 from excel2pycl.src.cell import Cell
+from excel2pycl.src.exceptions import E2PyclParserException
 
 
 class Context:
@@ -11,6 +12,7 @@ class Context:
     def __init__(self):
         self._cell_translations: Dict[str, str] = {}
         self._sub_cell_translations: Dict[str, List] = {}
+        self._cells_in_progress: Dict[str, bool] = {}
         self._titles: Dict[str, int] = {}
         self._sheets_size: List[Dict[str, int]] = []
 
@@ -883,6 +885,16 @@ class ExcelInPython:
     @staticmethod
     def _get_cell_with_cell_preprocessor(cell_function_name: str) -> str:
         return f"self._cell_preprocessor('{cell_function_name}')"
+
+    def start_cell_translation(self, cell: Cell) -> str:
+        cell_function_name = self._get_cell_function_name(cell)
+        if cell_function_name in self._cells_in_progress:
+            raise E2PyclParserException(f'The cell {cell} depends on itself (circular reference)')
+        self._cells_in_progress[cell_function_name] = True
+        return cell_function_name
+
+    def finish_cell_translation(self, cell_function_name: str):
+        self._cells_in_progress.pop(cell_function_name, None)
 
     def get_cell(self, cell: Cell) -> str or None:
         return self._get_cell_with_cell_preprocessor(
